@@ -61,7 +61,27 @@ RecProgs == { NSort(NVar(""), <<[dir |-> "", e |-> K]>>), NSort(NVar(""), <<[dir
               NCall(NVar("join"), <<NPath(<<NVar(""), NName(kk)>>, FALSE)>>), NPred(NVar(""), <<K>>),
               NCall(NVar("distinct"), <<NPath(<<NVar(""), NName(kk)>>, FALSE)>>) }
 
+\* function VALUES of every kind called with every short argument list (also none at all), directly, through a variable,
+\* through ~> and handed to a higher-order function
+Callees == { NVar("sum"), NVar("uppercase"), NVar("substringBefore"), NLambda(<<"x">>, NVar("x")), NLambda(<<>>, NNum(IntV(1))),
+             NLambda(<<"a", "b">>, NArray(<<NVar("a"), NVar("b")>>)),
+             NPartial(NVar("substring"), <<NPlace, NNum(IntV(1))>>), NPartial(NVar("append"), <<NPlace, NPlace>>),
+             NBlock(<<NApply(NVar("uppercase"), NVar("lowercase"))>>), NBlock(<<NApply(NApply(NVar("string"), NVar("uppercase")), NVar("length"))>>),
+             NBlock(<<NApply(NLambda(<<"x">>, NVar("x")), NVar("count"))>>),
+             NTransform(NPath(<<NName(ka)>>, FALSE), NObject(<< <<NStr(kb), NNum(IntV(1))>> >>), NNone),
+             NBlock(<<NApply(NTransform(NVar(""), NObject(<< <<NStr(kb), NNum(IntV(1))>> >>), NNone), NVar("keys"))>>),
+             [k |-> "TypedLambda", params |-> <<"x">>, body |-> NVar("x"), short |-> FALSE, sig |-> <<[ty |-> 2, opt |-> 0, sub |-> <<>>]>>, sigout |-> <<>>] }
+FewArgs == { <<>>, <<NStr(<<97, 66>>)>>, <<NNum(IntV(2))>>, <<NPath(<<NName(<<110, 111>>)>>, FALSE)>>, <<NArray(<<NNum(IntV(1)), NNum(IntV(2))>>)>>, <<NObject(<< <<NStr(ka), NNum(IntV(1))>> >>)>>,
+             <<NVar("sum")>>, <<NStr(<<97, 66>>), NNum(IntV(1))>>, <<NNull, NNull>>, <<NStr(ka), NStr(kb), NStr(kc)>> }
+CalleeProgs == { NCall(f, a) : f \in Callees, a \in FewArgs }
+                \cup { NBlock(<<NAssign("f", f), NCall(NVar("f"), a)>>) : f \in Callees, a \in FewArgs }
+                \cup { NApply(a[1], f) : f \in Callees, a \in {x \in FewArgs : Len(x) = 1} }
+                \cup { NCall(NVar(h), <<NArray(<<NNum(IntV(1)), NStr(<<97, 66>>)>>), f>>) : f \in Callees, h \in {"map", "filter", "reduce", "single", "sort"} }
+                \cup { NCall(NVar(h), <<NObject(<< <<NStr(ka), NNum(IntV(1))>> >>), f>>) : f \in Callees, h \in {"each", "sift"} }
+                \cup { NPartial(f, <<NPlace>>) : f \in Callees } \cup { NCall(NPartial(f, <<NPlace>>), a) : f \in Callees, a \in {<<>>, <<NStr(<<97, 66>>)>>} }
+
 Init == /\ \/ \E fn \in Fns, al \in ArgLists : case = MkCase(CallOf(fn, al), Doc)
+           \/ \E p \in CalleeProgs : case = MkCase(p, Doc)
            \/ \E p \in RecProgs, a \in RecArrays : case = MkCase(p, a)
            \/ \E p \in DataProgs : case = MkCase(p, Doc)
         /\ out = Pending
